@@ -61,6 +61,10 @@ class _Continue(Exception):
     pass
 
 
+class LoopStepDone(Exception):
+    """the generic iteration of an invariant-annotated loop has been executed: the path ends here"""
+
+
 EXC_PARENTS = {
     "KeyError": "LookupError",
     "IndexError": "LookupError",
@@ -147,11 +151,12 @@ class ExcValue:
 
 
 class Frame:
-    def __init__(self, module, env, defcls=None, self_obj=None):
+    def __init__(self, module, env, defcls=None, self_obj=None, func=None):
         self.module = module
         self.env = env
         self.defcls = defcls
         self.self_obj = self_obj
+        self.func = func
 
 
 class Path:
@@ -210,6 +215,8 @@ class Interp:
                     out = ("ret", v)
                 except PyRaise as r:
                     out = ("raise", r.exc)
+                except LoopStepDone:
+                    out = ("loopstep", None)
                 results.append(Path(list(self.pc), out, handles, list(self.assumptions), list(self.asserts)))
             except Fork:
                 base = list(self.dec[: self.pos])  # includes decisions forced by pruning on this run
@@ -277,7 +284,7 @@ class Interp:
     # ------------------------------------------------------------------ calls
     def call_function(self, module, node, args, kwargs, defcls=None, self_obj=None):
         env = self.bind_args(node, args, kwargs, module)
-        fr = Frame(module, env, defcls, self_obj)
+        fr = Frame(module, env, defcls, self_obj, node)
         self.frames.append(fr)
         if len(self.frames) > 60:
             raise OutOfSubset("recursion depth")
@@ -482,6 +489,11 @@ class Interp:
 
     def s_For(self, s, fr):
         it = self.ev(s.iter, fr)
+        hook = self.builtins.get("__for__")
+        if hook is not None:
+            r = hook.fn(self, s, fr, it)
+            if r is not NotHandled:
+                return r
         if hasattr(it, "sym_for"):
             return it.sym_for(self, s, fr)
         items = self.iterate(it)
